@@ -640,6 +640,14 @@ impl Sweep for Vm {
                 if let Some(exp) = exp {
                     let line = format!("C%=0:FOR I%={} TO {} STEP {}:C%=C%+1:NEXT:PRINT C%", lit(a), lit(b), lit(s as i16));
                     self.judge(&line, "for-next-counter", exp, ctx);
+                    // the same step as a Single / Double (whole-valued): the sum is a float, the store converts it back
+                    if s != -32768 {
+                        for suffix in ["!", "#"] {
+                            let step = if s < 0 { format!("-{}{}", -s, suffix) } else { format!("{}{}", s, suffix) };
+                            let line = format!("C%=0:FOR I%={} TO {} STEP {}:C%=C%+1:NEXT:PRINT C%", lit(a), lit(b), step);
+                            self.judge(&line, "for-next-counter-float-step", exp, ctx);
+                        }
+                    }
                 }
             }
         }
